@@ -27,7 +27,8 @@ class TFile:
 
 
 class TorrentSpec:
-    def __init__(self, name, piece_length, files, single):
+    def __init__(self, name, piece_length, files, single, extra=None):
+        self.extra = dict(extra or {})      # further keys of the info dictionary that the tool does not interpret (they change the info-hash)
         self.name = name
         self.piece_length = piece_length
         self.files = files
@@ -41,6 +42,7 @@ class TorrentSpec:
             info[b"length"] = files[0].length
         else:
             info[b"files"] = [{b"length": f.length, b"path": list(f.path)} for f in files]
+        info.update(self.extra)
         self.info = info
         self.raw = docgen.enc({b"info": info, b"announce": b"http://t/" + name})
         self.info_hash = sha1(docgen.enc(info))
